@@ -41,6 +41,7 @@
 #include <cstdint>
 #include <cstring>
 #include <limits>
+#include <iomanip>
 #include <locale>
 #include <sstream>
 #include <stdexcept>
@@ -585,6 +586,24 @@ void vector_roundtrip()
       wis >> z2;
       if (wis.fail() || !(z2 == v))
         vf::violation(e + "/" + what + "/wide-roundtrip", "mismatch", "text " + os.str());
+      // several values in ONE stream, as streams are used: separated by a blank, a line break, a tab, or padded by a
+      // field width (the padding lands in front of the value); every one of them reads back
+      {
+        std::ostringstream seq;
+        seq << v << ' ' << v << '\n' << v << "\t " << std::setw(static_cast<int>(want.size()) + 3) << v;
+        std::istringstream in(seq.str());
+        for (int k = 0; k < 4; ++k)
+        {
+          auto z = zero;
+          in >> z;
+          if (in.fail() || !(z == v))
+          {
+            vf::violation(e + "/" + what + "/sequence-in-one-stream", "mismatch", "value number " + std::to_string(k + 1) + " of \"" + seq.str() + "\" did not read back");
+            break;
+          }
+        }
+        VF_COUNT("vector/sequences-in-one-stream");
+      }
     };
     if constexpr (N == 1)
     {
@@ -867,7 +886,7 @@ void io_string_wrappers()
 
 void body()
 {
-  for (char const *b : {"io/write-read", "io/read-from-failed-stream", "text/grouping-locale/written-with-separator", "text/roundtrips", "text/char-types", "text/malformed", "enum/roundtrips", "enum/non-names",
+  for (char const *b : {"io/write-read", "vector/sequences-in-one-stream", "io/read-from-failed-stream", "text/grouping-locale/written-with-separator", "text/roundtrips", "text/char-types", "text/malformed", "enum/roundtrips", "enum/non-names",
                         "vector/roundtrips", "vector/malformed", "utf8/strings", "utf8/scalars-singly", "utf8/narrow-growth/x4",
                         "utf8/narrow-growth/x2-3", "utf8/narrow-growth/lt-x2", "utf8/incomplete-input", "utf8/invalid-input",
                         "utf8/env-locale-strings", "io-string/roundtrips"})
